@@ -29,9 +29,12 @@
       when the body copy fails, as a function of what the handler does with the error (`CopyPolicy`).
   §9  the accept loop (`Proxy.Serve`): which `Accept` errors are retried (with which delay) and which end it.
   §10 the HTTP log mode: the logger as a wrapper around the relayed body (`wrapBody`), transparency.
+  §11 `middleware.parseBasicAuth` as Go executes it (slice and index expressions with their bound checks,
+      a `panic` outcome), the basic-auth decision on a field value; the `strings.Fields` way of writing it.
 -/
 import FwdVerif.Model.Resp
 import FwdVerif.Model.RespSpec
+import FwdVerif.Model.C04
 
 namespace FwdVerif
 namespace C12
@@ -1292,6 +1295,91 @@ def loggedFault : LogMode → Fault → Fault
 
 /-- the handler variant: the same modifier stack in front of `proxyHandler.writeResponse` -/
 def handlerStreamLogged (m : LogMode) (f : Fault) (ex : Exchange) : ClientObs := handlerStream (loggedFault m f) ex
+
+/-! ## §11 `middleware.parseBasicAuth` as Go executes it
+
+  The proxy's basic-auth request modifier runs on martian's `handleLoop` goroutine, which has no `recover`:
+  an index or slice expression out of range in the parser of a client-supplied field value ends the
+  process.  `Req.parseBasicAuth` (shared with C04) says WHAT the parser returns; here the same code is
+  written with Go's slice / index expressions as partial operations, so that "defined on every input" is
+  a statement (and a theorem) instead of a property of the modelling language. -/
+
+/-- outcome of Go code that may run into an index / slice expression out of range -/
+inductive GoOut (α : Type) where
+  | panic
+  | ret (v : α)
+  deriving Repr, DecidableEq
+
+/-- `s[:n]` -/
+def goSliceTo (s : Bytes) (n : Nat) : GoOut Bytes := if n ≤ s.length then .ret (s.take n) else .panic
+/-- `s[n:]` -/
+def goSliceFrom (s : Bytes) (n : Nat) : GoOut Bytes := if n ≤ s.length then .ret (s.drop n) else .panic
+/-- `f[i]` -/
+def goIndex (f : List Bytes) (i : Nat) : GoOut Bytes :=
+  match f[i]? with
+  | some x => .ret x
+  | none => .panic
+
+/-- what follows the scheme: `base64.StdEncoding.DecodeString`, then `strings.Cut(cs, ":")` -/
+def credsOf (payload : Bytes) : Option (Bytes × Bytes) :=
+  match Req.b64Decode payload with
+  | none => none
+  | some cs =>
+    let user := cs.takeWhile (fun c => c != 58)
+    if user.length == cs.length then none else some (user, cs.drop (user.length + 1))
+
+/-- `parseBasicAuth` of middleware/basic_auth.go, expression by expression: `||` evaluates
+    `auth[:len(prefix)]` only when `len(auth) < len(prefix)` is false -/
+def parseBasicAuthGo (auth : Bytes) : GoOut (Option (Bytes × Bytes)) :=
+  if auth.length < 6 then .ret none else
+  match goSliceTo auth 6 with
+  | .panic => .panic
+  | .ret p =>
+    if !eqFold p (bs "Basic ") then .ret none else
+    match goSliceFrom auth 6 with
+    | .panic => .panic
+    | .ret rest => .ret (credsOf rest)
+
+/-- `BasicAuth.AuthenticatedRequest` on the value `Header.Get` returns ("" when the field is absent) -/
+def authenticatedGo (user pass v : Bytes) : GoOut Bool :=
+  if v.isEmpty then .ret false else
+  match parseBasicAuthGo v with
+  | .panic => .panic
+  | .ret none => .ret false
+  | .ret (some (u, p)) => .ret (u == user && p == pass)
+
+/-- white space of `strings.Fields` among single bytes: `\t \n \v \f \r` and space -/
+def isFieldSpace (c : UInt8) : Bool := c == 9 || c == 10 || c == 11 || c == 12 || c == 13 || c == 32
+
+def flushField (cur : Bytes) : List Bytes := if cur.isEmpty then [] else [cur.reverse]
+
+/-- `strings.Fields` as far as the witnesses need it: split around runs of ASCII white space and of
+    U+00A0 (`C2 A0`, one of the code points `unicode.IsSpace` adds to the ASCII ones); `pending` = the
+    byte before was `C2` and is not yet part of a field -/
+def authFieldsAcc : Bytes → Bool → Bytes → List Bytes
+  | [], pending, cur => flushField (if pending then 194 :: cur else cur)
+  | c :: tl, pending, cur =>
+    if pending && c == 160 then flushField cur ++ authFieldsAcc tl false []
+    else
+      let cur := if pending then 194 :: cur else cur
+      if isFieldSpace c then flushField cur ++ authFieldsAcc tl false []
+      else if c == 194 then authFieldsAcc tl true cur
+      else authFieldsAcc tl false (c :: cur)
+
+def authFields (s : Bytes) : List Bytes := authFieldsAcc s false []
+
+/-- the parser written with `strings.Fields` ("the caller does not pass an empty value"):
+    `f := strings.Fields(auth); if len(f) > 2 || !EqualFold(f[0], "Basic") { return }; decode f[1]` -/
+def parseBasicAuthFields (auth : Bytes) : GoOut (Option (Bytes × Bytes)) :=
+  let f := authFields auth
+  if f.length > 2 then .ret none else
+  match goIndex f 0 with
+  | .panic => .panic
+  | .ret f0 =>
+    if !eqFold f0 (bs "Basic") then .ret none else
+    match goIndex f 1 with
+    | .panic => .panic
+    | .ret f1 => .ret (credsOf f1)
 
 end C12
 end FwdVerif
